@@ -83,7 +83,20 @@ func skipCompare(c *mc.Ctx, prop string, input []byte, t int8, sk string, env En
 			bad("accepted-malformed", "accepted (extent %d) an input the grammar rejects: %s", o.N, causeString(r.Causes))
 		}
 	}
+	// a decoder that has just rejected something went back to its pool: the next user must find it as good as new
+	if !o.OK && sk != skBinary && sk != skBufBytes && sk != skBufStream {
+		c2 := runSkipperOpt(sk, c08Canary, ref.STRUCT, env, false, false)
+		if c2.Panic != nil || c2.AllocCap || !c2.OK || c2.N != len(c08Canary)-1 || (c2.HasBytes && string(c2.Bytes) != string(c08Canary[:len(c08Canary)-1])) {
+			bad("state-leaks-after-rejection", "after this rejected input, a fresh decoder from the pool mishandled a well-formed struct: %s (want extent %d)", describeOut(c2), len(c08Canary)-1)
+		}
+	}
 }
+
+// a well-formed struct followed by one trailing byte
+var c08Canary = func() []byte {
+	v := ref.Value{T: ref.STRUCT, F: []ref.Field{{ID: 1, V: ref.Value{T: ref.STRING, S: []byte("canary")}}, {ID: 2, V: ref.Value{T: ref.LIST, Elem: ref.I32, L: []ref.Value{{T: ref.I32, I: 7}, {T: ref.I32, I: 8}}}}}}
+	return append(ref.Encode(nil, &v), 0x7e)
+}()
 
 func c08Run(c *mc.Ctx) {
 	th := c.Thorough()
@@ -120,6 +133,13 @@ func c08Run(c *mc.Ctx) {
 						continue // quick: the longest strings on the stream readers are left to thorough (ReaderSkipDecoder stays)
 					}
 					skipCompare(c, "C08", s, t, sk, full, "grammar-alphabet string", &r)
+					if isStreamSkipper(sk) && n >= 2 && (th || n < L) {
+						// fragment boundaries inside structural headers
+						skipCompare(c, "C08", s, t, sk, EnvCfg{Chunk: 1}, "grammar-alphabet string", &r)
+						if n >= 5 {
+							skipCompare(c, "C08", s, t, sk, EnvCfg{Chunk: 3, ErrWithLast: true}, "grammar-alphabet string", &r)
+						}
+					}
 				}
 			}
 		}
@@ -169,6 +189,9 @@ func c08Run(c *mc.Ctx) {
 			}
 			for _, sk := range allSkippers {
 				skipCompare(c, "C08", b, tr.V.T, sk, full, tr.Name+" with "+desc, &r)
+				if isStreamSkipper(sk) && len(b) <= 64 {
+					skipCompare(c, "C08", b, tr.V.T, sk, EnvCfg{Chunk: 2}, tr.Name+" with "+desc, &r)
+				}
 			}
 			return true
 		})
